@@ -20,7 +20,7 @@ func (Engine) Info(prop string) core.Info {
 	case "C01":
 		return core.Info{
 			Level:        "exploration",
-			Rule:         "one plan = two real fbb.Sessions with seeded message sets (0-22 each way), per-MID accept/reject/defer policies, master/slave, MOTD, batched/unbatched handlers, GZIP_EXPERIMENT per station, optional conn capabilities, and per-direction segmentation and latency tapes on the simulated link; no faults. Non-trivial: at least one message body crossed the link. Distinct: distinct event-log hash (deliveries, handler callbacks and exchange results with simulated timestamps).",
+			Rule:         "one plan = two real fbb.Sessions with seeded message sets (0-22 each way), per-MID accept/reject/defer policies, master/slave, MOTD, batched/unbatched handlers, GZIP_EXPERIMENT per station, optional conn capabilities, and per-direction segmentation and latency tapes on the simulated link; no faults. Non-trivial: at least one message body crossed the link. Distinct: distinct event-log hash (deliveries, handler callbacks and exchange results with simulated timestamps). Delivered content is compared byte for byte with the queued form AND, through an independent header/body/attachment splitter, with the message as it was composed before the library parsed anything (a parser that damages messages consistently would otherwise pass).",
 			Real:         realCode,
 			Stub:         []string{"clock (testing/synctest)", "link (sim/pipe)", "mailbox handler (ref/mbox)", "GZIP_EXPERIMENT lookup (os import swapped for sim/shim/envos)"},
 			Assumptions:  []string{"library runs on the Go 1.26.8 standard library, not 1.24.0", "goroutine choice between two environment events is the Go runtime's at GOMAXPROCS=1"},
@@ -31,7 +31,7 @@ func (Engine) Info(prop string) core.Info {
 	case "C05":
 		return core.Info{
 			Level:        "exploration",
-			Rule:         "one plan = a real fbb.Session against the independently written reference B2F peer (ref/b2f) in strict validator mode, either role; library side: seeded message sets, answer policies, MOTD, user agent, auxiliary addresses; peer side: seeded SID, prompt, MOTD text, ;FW lists with |hash, comment and ;PM placement, duplicate MID in a block, proposals per block 1-5, STX block sizes 1..256, every answer form (+ - = Y N L H R !0 A0, either case), CMS-style early FQ; per-direction segmentation/latency tapes. Non-trivial: at least one message crossed in either direction. Distinct: distinct event-log hash.",
+			Rule:         "one plan = a real fbb.Session against the independently written reference B2F peer (ref/b2f) in strict validator mode, either role; library side: seeded message sets, answer policies, MOTD, user agent, auxiliary addresses; peer side: seeded SID, prompt, MOTD text, ;FW lists with |hash, comment and ;PM placement, duplicate MID in a block, proposals per block 1-5, STX block sizes 1..256, every answer form (+ - = Y N L H R !0 A0, either case), CMS-style early FQ; per-direction segmentation/latency tapes. Non-trivial: at least one message crossed in either direction. Distinct: distinct event-log hash. The peer also asks for transfers from a non-zero offset (resume: offset field, length and the bytes from that offset on are checked) and, CMS style, may send FQ out of turn right behind its last block and hang up.",
 			Real:         realCode,
 			Stub:         []string{"clock (testing/synctest)", "link (sim/pipe)", "remote station (ref/b2f reference peer + independent LZHUF decoder)", "mailbox handler (ref/mbox)"},
 			Assumptions:  []string{"the reference peer encodes B2F as described in docs/F6FBB-B2F and the public Winlink B2F description; behaviour of real RMS software beyond those documents is not simulated", "library runs on the Go 1.26.8 standard library"},
@@ -42,7 +42,7 @@ func (Engine) Info(prop string) core.Info {
 	case "C02":
 		return core.Info{
 			Level:           "fault_enumeration",
-			Rule:            "one plan = two mailboxes (1-4 messages each way, thorough up to 7; some already present at the peer), 0-2 seeded faulty sessions, then the target session, then fault-free sessions until one completes. A pilot records the target session's transcript length per direction and its ProcessInbound calls; then every fault is executed as its own chain in its own simulated run: the link cut after every delivered byte offset k in [0,N] of either direction (both ends see EOF; later writes fail or, for a third of the offsets, succeed silently), and a storage error on the i-th inbound message for every i at either station (quick tier: at most 2500 offsets per direction - both ends of the transcript plus a seeded sample). Oracle: both Exchange calls return within 5 simulated minutes of each other once one has ended; SetSent only for messages the peer's handler completely received (or already had); everything handed to a handler is byte-identical to the queued message; never stored twice, never reported sent twice; after the first completed fault-free session everything is delivered, reported sent and nothing is pending. evaluations = executed chains; distinct = distinct event-log hashes (first 4096 per plan).",
+			Rule:            "one plan = two mailboxes (1-4 messages each way, thorough up to 7; some already present at the peer), 0-2 seeded faulty sessions, then the target session, then fault-free sessions until one completes. A pilot records the target session's transcript length per direction and its ProcessInbound calls; then every fault is executed as its own chain in its own simulated run: the link cut after every delivered byte offset k in [0,N] of either direction (both ends see EOF; later writes fail or, for a third of the offsets, succeed silently), and a storage error on the i-th inbound message for every i at either station (quick tier: at most 2500 offsets per direction - both ends of the transcript plus a seeded sample). Oracle: both Exchange calls return within 5 simulated minutes of each other once one has ended; SetSent only for messages the peer's handler completely received (or already had); everything handed to a handler is byte-identical to the queued message; never stored twice, never reported sent twice; after the first completed fault-free session everything is delivered, reported sent and nothing is pending. evaluations = executed chains; distinct = distinct event-log hashes (first 4096 per plan). Content handed to a handler is also compared with the composed message (see C01).",
 			Real:            realCode,
 			Stub:            []string{"clock (testing/synctest)", "link with cut faults (sim/pipe)", "mailbox handlers (ref/mbox with storage-error knob)"},
 			Assumptions:     []string{"answer policies other than 'accept' and 'already received' are left to C01", "library runs on the Go 1.26.8 standard library"},
@@ -54,7 +54,7 @@ func (Engine) Info(prop string) core.Info {
 	case "C03":
 		return core.Info{
 			Level:           "exploration",
-			Rule:            "one plan = a real fbb.Session (either role, with or without outbound messages) against the reference peer in Byzantine mode: it speaks the real protocol so that deep states are reached, and damages its own output at one seeded layer: raw in-flight byte edits, handshake lines, proposal lines and fields (negative/huge/non-numeric sizes, hostile MIDs, F> without checksum), FS answers (offsets beyond the data, too many/few), frame header/block/EOT bytes, the LZHUF payload inside a valid frame (negative/zero/short/long declared size, final match overrunning the size, truncation, bit flips, sum-preserving pairs; CRC fixed or not), the message inside a valid LZHUF stream (negative/huge Body and File sizes, missing Mid, bad date, thousands of File headers), or pure garbage transcripts; then the remote stops talking and closes. Oracle: no panic, no process death, Exchange returns within 5 simulated minutes after the remote closed, the connection is closed, allocation <= 32 MiB + 512 x bytes received; CPU spins are caught by the wall-clock watchdog and confirmed in a fresh process. Non-trivial: at least one damaged emission/edit/hostile message in the plan. Distinct: distinct event-log hash.",
+			Rule:            "one plan = a real fbb.Session (either role, with or without outbound messages) against the reference peer in Byzantine mode: it speaks the real protocol so that deep states are reached, and damages its own output at one seeded layer: raw in-flight byte edits, handshake lines, proposal lines and fields (negative/huge/non-numeric sizes, hostile MIDs, F> without checksum), FS answers (offsets beyond the data, too many/few), frame header/block/EOT bytes, the LZHUF payload inside a valid frame (negative/zero/short/long declared size, final match overrunning the size, truncation, bit flips, sum-preserving pairs; CRC fixed or not), the message inside a valid LZHUF stream (negative/huge Body and File sizes, missing Mid, bad date, thousands of File headers), or pure garbage transcripts; then the remote stops talking and closes. Oracle: no panic, no process death, Exchange returns within 5 simulated minutes after the remote closed, the connection is closed, allocation <= 32 MiB + 512 x bytes received; CPU spins are caught by the wall-clock watchdog and confirmed in a fresh process. Non-trivial: at least one damaged emission/edit/hostile message in the plan. Distinct: distinct event-log hash. A further layer lets the remote go away (EOF) after a chosen number of bytes of a chosen unit (transfer header, block, EOT, proposal, FS, SID ...), counted from its start, its end or right behind a delimiter byte.",
 			Real:            realCode,
 			Stub:            []string{"clock (testing/synctest)", "link (sim/pipe)", "remote station (ref/b2f in Byzantine mode / garbage source)", "mailbox handler (ref/mbox)"},
 			Assumptions:     []string{"a CPU spin is decided by a wall-clock watchdog (30 s for runs that take milliseconds) because a spinning goroutine never lets the fake clock advance", "allocation is measured with runtime.MemStats.TotalAlloc around the whole run, harness included; the bound is deliberately loose", "library runs on the Go 1.26.8 standard library"},
@@ -66,7 +66,7 @@ func (Engine) Info(prop string) core.Info {
 	case "C04":
 		return core.Info{
 			Level:        "fault_enumeration",
-			Rule:         "one plan = one scenario (arm peer: reference peer sends 1-2 messages to a real Session; arm two: two real Sessions, A sends 1-2 messages to B). A fault-free pilot records the sender's byte stream; an independent scanner locates each SOH..EOT range; then every damage pattern is executed as its own simulated run: at every offset of the range a +1 substitution, a ^0x80 substitution, a seeded substitution, a '*' substitution, a deletion and an insertion; every framing byte (SOH, each STX, EOT) replaced by each of NUL SOH STX EOT 'F' ';' CR; 150 seeded sum-preserving pairs (+d at i, -d at j over the data bytes, every fifth inside the 6-byte CRC/size header) and up to 400 adjacent swaps (quick tier: thinned to 3000 per transfer). The altered stream is judged by the reference receiver (independent frame parser, announced compressed length, offset, independent LZHUF decoder with CRC-16 and size check); the Session must deliver iff allowed and then exactly the reference decoding. evaluations = executions; distinct = distinct event-log hashes of the faulty executions.",
+			Rule:         "one plan = one scenario (arm peer: reference peer sends 1-2 messages to a real Session; arm two: two real Sessions, A sends 1-2 messages to B). A fault-free pilot records the sender's byte stream; an independent scanner locates each SOH..EOT range; then every damage pattern is executed as its own simulated run: at every offset of the range a +1 substitution, a ^0x80 substitution, a seeded substitution, a '*' substitution, a deletion and an insertion; every framing byte (SOH, each STX, EOT) replaced by each of NUL SOH STX EOT 'F' ';' CR; 150 seeded sum-preserving pairs (+d at i, -d at j over the data bytes, every fifth inside the 6-byte CRC/size header) and up to 400 adjacent swaps (quick tier: thinned to 3000 per transfer). The altered stream is judged by the reference receiver (independent frame parser, announced compressed length, offset, independent LZHUF decoder with CRC-16 and size check); the Session must deliver iff allowed and then exactly the reference decoding. evaluations = executions; distinct = distinct event-log hashes of the faulty executions. Further damage kinds: an empty block (STX 0) and a whole zero-sum block inserted at every block boundary.",
 			Real:         realCode,
 			Stub:         []string{"clock (testing/synctest)", "link with in-flight edits (sim/pipe)", "sender in arm peer (ref/b2f)", "reference receiver (ref/b2f frame parser + independent LZHUF decoder)", "mailbox handlers (ref/mbox)"},
 			Assumptions:  []string{"alterations are enumerated for the first two transfers of a scenario", "library runs on the Go 1.26.8 standard library"},
@@ -77,7 +77,7 @@ func (Engine) Info(prop string) core.Info {
 	case "C17":
 		return core.Info{
 			Level:        "exploration",
-			Rule:         "one plan = a C01 scenario (messages 1 B - 40 KB, thorough up to 300 KB) with a recording StatusUpdater on both stations, in a -race build; every conn.Write blocks for a seeded simulated time (none, < 100 ms, 100-400 ms, 250-2100 ms) so the 250 ms send-side ticker and the receive-side notifier run at seed-chosen points of the transfer; conns with and without TxBufferLen/Flush. Schedules are timer-assigned, so the race detector's happens-before analysis is not polluted by simulator synchronisation; the recorder shares no lock with the session goroutine. Oracle: zero race reports (a report kills the worker and becomes C17/data-race/<functions>) and, after quiescence, per transferred message and direction: 0 <= BytesTransferred <= BytesTotal = compressed size, exactly one report with Done, none after it. Non-trivial: at least one message transferred and one report delivered. Distinct: distinct event-log hash.",
+			Rule:         "one plan = a C01 scenario (messages 1 B - 40 KB, thorough up to 300 KB) with a recording StatusUpdater on both stations, in a -race build; every conn.Write blocks for a seeded simulated time (none, < 100 ms, 100-400 ms, 250-2100 ms) so the 250 ms send-side ticker and the receive-side notifier run at seed-chosen points of the transfer; conns with and without TxBufferLen/Flush. Schedules are timer-assigned, so the race detector's happens-before analysis is not polluted by simulator synchronisation; the recorder shares no lock with the session goroutine. Oracle: zero race reports (a report kills the worker and becomes C17/data-race/<functions>) and, after quiescence, per transferred message and direction: 0 <= BytesTransferred <= BytesTotal = compressed size, exactly one report with Done, none after it. Non-trivial: at least one message transferred and one report delivered. Distinct: distinct event-log hash. A fifth of the plans run the library station against the reference peer instead, which takes about half of what it accepts from a non-zero offset.",
 			Real:         realCode,
 			Stub:         []string{"clock (testing/synctest)", "link with write pacing (sim/pipe)", "mailbox handler (ref/mbox)", "StatusUpdater (recorder)"},
 			Assumptions:  []string{"data-race freedom is judged by the Go race detector on the executions sampled", "library runs on the Go 1.26.8 standard library"},
@@ -89,7 +89,7 @@ func (Engine) Info(prop string) core.Info {
 	case "C16":
 		return core.Info{
 			Level:        "exploration",
-			Rule:         "one plan = a real fbb.Session (slave) against the reference peer acting as CMS that issues ;PQ <challenge>; seeded challenges (8 digits, 1-24 digits, alphanumerics, odd strings), passwords of 6-16 arbitrary bytes without CR/LF, 0-3 auxiliary addresses each with password / without / with failing callback, runs without a callback and with a failing callback for the primary address; seeded segmentation/latency. The expected ;PR and ;FW entries come from an independent implementation of the algorithm (ref/b2f/secure.go, pinned by the published vectors); a wire tap searches everything the Session wrote for the passwords. Non-trivial: a ;PR line was received and matched. Distinct: distinct event-log hash. (Differential check hosted in the simulator: no schedule or fault changes the answer.)",
+			Rule:         "one plan = a real fbb.Session (slave) against the reference peer acting as CMS that issues ;PQ <challenge>; seeded challenges (8 digits, 1-24 digits, alphanumerics, odd strings), passwords of 6-16 arbitrary bytes without CR/LF, 0-3 auxiliary addresses each with password / without / with failing callback, runs without a callback and with a failing callback for the primary address; seeded segmentation/latency. The expected ;PR and ;FW entries come from an independent implementation of the algorithm (ref/b2f/secure.go, pinned by the published vectors); a wire tap searches everything the Session wrote for the passwords. Non-trivial: a ;PR line was received and matched. Distinct: distinct event-log hash. (Differential check hosted in the simulator: no schedule or fault changes the answer.) Passwords up to 1200 bytes and challenges up to 300 digits (MD5 block boundaries); a quarter of the plans run 2-3 stations of one process that log in to their own remotes at the same time, with plan-driven pauses at the statement boundaries of the instrumented fbb/lzhuf code (yield injection, DESIGN 8.9).",
 			Real:         realCode,
 			Stub:         []string{"clock (testing/synctest)", "link (sim/pipe)", "CMS (ref/b2f reference peer)", "mailbox handler (ref/mbox)"},
 			Assumptions:  []string{"the 64-byte salt copy in ref/b2f is correct (pinned by the two published test vectors)", "library runs on the Go 1.26.8 standard library"},
